@@ -403,17 +403,20 @@ def load_octree_for_query(
             source.seek(entry.offset)
             page_bytes = source.read(entry.byte_size)
             page = HierarchyPage.from_bytes(page_bytes)
+            # checked before anything of the page is taken over: a query that
+            # is refused leaves the hierarchy known so far as it was
+            described = page.entries.get(current_node.key)
+            if described is None or described.point_count == -1:
+                raise LaspyException(
+                    f"Invalid COPC hierarchy: the page referenced for {current_node.key} "
+                    "does not describe that node"
+                )
             # a loaded page only brings in entries that are not resolved yet,
             # so that two pages cannot keep resetting each other's entries
             for key, loaded_entry in page.entries.items():
                 known_entry = hierarchy_page.entries.get(key)
                 if known_entry is None or known_entry.point_count == -1:
                     hierarchy_page.entries[key] = loaded_entry
-            if hierarchy_page.entries[current_node.key].point_count == -1:
-                raise LaspyException(
-                    f"Invalid COPC hierarchy: the page referenced for {current_node.key} "
-                    "does not describe that node"
-                )
             nodes_to_load.insert(0, current_node)
             continue
         elif entry.point_count >= 0:
